@@ -60,7 +60,9 @@ package signing
 
 // round_1.go Start: the digest guard comes before anything is sent.
 //@ func (*round1).Start
-//@   props C01
+//@   props C01 C20
+//@   site common.GetRandomPositiveInt#0 : [C20.the-nonce-k-is-drawn-from-the-session-randomness] $arg0 == round.Parameters.rand
+//@   site common.GetRandomPositiveInt#1 : [C20.the-mask-gamma-is-drawn-from-the-session-randomness] $arg0 == round.Parameters.rand
 //@   requires round != nil && round.base != nil
 //@   requires wfParams(round.Parameters) && okCurve(round.Parameters.ec) && round.temp != nil && round.key != nil && round.out != nil && round.temp.m != nil
 //@   skip pre nil idx slice tassert frame
@@ -297,6 +299,8 @@ package signing
 //@ define sg4slot(m) = (!isnil(m) && istype(msgcontent(m), "*ecdsa/signing.SignRound4Message") && cast(msgcontent(m), "*ecdsa/signing.SignRound4Message") != nil && len(cast(msgcontent(m), "*ecdsa/signing.SignRound4Message").DeCommitment) <= 8192)
 //@ func (*round5).Start
 //@   props C06 C05 C01 C20
+//@   site common.GetRandomPositiveInt#0 : [C20.the-blinding-value-l-is-drawn-from-the-session-randomness] $arg0 == round.Parameters.rand
+//@   site common.GetRandomPositiveInt#1 : [C20.the-blinding-value-rho-is-drawn-from-the-session-randomness] $arg0 == round.Parameters.rand
 //@   requires round != nil && round.round4 != nil && round.round4.round3 != nil && round.round4.round3.round2 != nil && round.round4.round3.round2.round1 != nil && round.round4.round3.round2.round1.base != nil && ecSignWF(round)
 //@   requires [rounds-1-and-4-complete] forall j in 0..sgN(round) :: (j != sgI(round) ==> (sg1m2slot(round.temp.signRound1Message2s[j]) && sg4slot(round.temp.signRound4Messages[j])))
 //@   requires [own-values] round.temp.pointGamma != nil && validPoint(round.temp.pointGamma) && round.temp.pointGamma.curve == round.Parameters.ec && round.temp.thetaInverse != nil && 0 < val(round.temp.thetaInverse) && val(round.temp.thetaInverse) < secpN && round.temp.m != nil && round.temp.k != nil && round.temp.sigma != nil && val(round.temp.m) >= 0 && val(round.temp.k) >= 0 && val(round.temp.sigma) >= 0 && len(round.temp.ssid) <= 4096
